@@ -60,7 +60,11 @@ Inductive case :=
 | CSettle (ac : app_config) (admin : addr) (legs : list (addr * addr * coins * bool))
           (accepted : bool) (deltas : list (addr * denom * Z))
 | CValueOwner (ac : app_config) (signers : list addr) (owner to : addr) (d : denom) (to_blocked : bool)
-              (obs : bank_obs).
+              (obs : bank_obs)
+(* a one-coin send with what the keepers REPORT at query time: the marker's required attributes
+   (GetMarker(...).GetRequiredAttributes()) and the receiver's attribute names (GetAllAttributesAddr) *)
+| CReqAttr (ac : app_config) (from to : addr) (d : denom) (a : Z) (required attrs : list string)
+           (fn_ok : bool) (send : bank_obs).
 
 (** ** The property's "in particular" clauses, on an answer [ok] of the implementation. *)
 Definition bypassed (c : config) (from : addr) : bool :=
@@ -281,6 +285,23 @@ Definition check (cs : case) : list string :=
           end ++
           tag (quarantine_clause ac owner to [(d, 1%Z)] dl) "prop:quarantined_receiver_credited update_value_owners"
       end
+  | CReqAttr ac from to d a required attrs fn_ok send =>
+      let c := ac_marker ac in
+      let amt := [(d, a)] in
+      check_answer "send_restriction_fn" c from to amt fn_ok ++
+      check_bank "send_coins" ac from to amt (app_restriction_seq ac from to amt) true send ++
+      (* the configuration shows the names the keepers report *)
+      tag (list_eqb bytes_eqb (attributes_of c to) (map b attrs) &&
+           match marker_for_denom c d with
+           | Some m => list_eqb bytes_eqb (m_req_attrs m) (map b required)
+           | None => match required with [] => true | _ => false end
+           end) "corr:observed_attribute_names" ++
+      (* independent of the code model: where the attributes decide, the answer is "every observed
+         requirement is matched by SOME observed attribute name" (level-wise rule of 01_state.md) *)
+      (if attribute_decided c from to d
+       then tag (Bool.eqb fn_ok (each_requirement_matched (map b required) (map b attrs)))
+                "prop:required_attributes_each_on_its_own"
+       else [])
   end.
 
 Definition check_all := check_list check.
